@@ -187,6 +187,16 @@ func (c *Counter) Add(n int64) {
 			return
 
 		case !state.havePtr():
+			if state.readers() > 0 {
+				// Readers are still using the previous pointer. Taking the lock now
+				// would overwrite their count; the last of them upgrades to a full
+				// lock (see releaseReader) and flushes extra.
+				if !c.state.update(&state, state.addExtra(uint64(n))) {
+					continue
+				}
+				debugPrintf("Add %q += %d: noptr, readers extra=%d\n", c.name, n, state.extra())
+				return
+			}
 			if !c.state.update(&state, state.addExtra(uint64(n)).setLocked()) {
 				continue
 			}
